@@ -11,6 +11,6 @@ SPEC = {
     "trusted": ["atomic steps of the LTS are the blocking points of the goroutines; data races inside a step are out of reach (thorough tier could add -race)",
                 "SIGINT/SIGTERM/SIGHUP -> terminate flag is C20's business; here terminate() is a constant of the run"],
     "assumptions": ["the observable log is the order in which WriteTo begins/ends and Run's return are recorded under one mutex"],
-    "level_text": "Theorems (Coq, every complete trace of the stop-sequence LTS, any number of pending/in-flight transmissions and any interleaving): when terminating the trace is pre ++ [final begin; final end; return nil] with every ordinary transmission completed inside pre and the cancellation in pre (exactly one final RA, last packet, success); when reloading pre ++ [return nil] with no final RA; nothing follows the return; from any state after the cancellation the run can complete (reachability; fairness is partial). On the model of the code -- Advertiser.Run around the goroutine-group LTS of C10 with the guards and the two orderings of Run extracted from the source (advertise returns only after eg.Wait, shutdown only after advertise returned and followed by return) -- every reachable state in which the final RA is in flight or Run has returned has the cancellation behind it, every member returned, no worker in WriteTo or able to start (C08_final_alone); without the scheduler's wait (defect 224e990) or either ordering an overtaken final RA is reachable (C08_legacy_overtaken). Tie: every observed event log of the real Advertiser.Run with gated WriteTo must be accepted by the LTS and by the independent trace checker (incl. prompt return and final RA = ordinary RA except lifetime).",
+    "level_text": "Theorems (Coq, every complete trace of the stop-sequence LTS, any number of pending/in-flight transmissions and any interleaving): when terminating the trace is pre ++ [final begin; final end; return nil] with every ordinary transmission completed inside pre and the cancellation in pre (exactly one final RA, last packet, success); when reloading pre ++ [return nil] with no final RA; nothing follows the return; from any state after the cancellation the run can complete (reachability; fairness is partial). On the model of the code -- Advertiser.Run around the goroutine-group LTS of C10 with the guards and the two orderings of Run extracted from the source (advertise returns only after eg.Wait, shutdown only after advertise returned and followed by return) -- every reachable state in which the final RA is in flight or Run has returned has the cancellation behind it, every member returned, no worker in WriteTo or able to start (C08_final_alone), and every execution after the cancellation is finite and cannot stop before Run has returned (C08_returns); without the scheduler's wait (defect 224e990) or either ordering an overtaken final RA is reachable (C08_legacy_overtaken). Tie: every observed event log of the real Advertiser.Run with gated WriteTo must be accepted by the LTS and by the independent trace checker (incl. prompt return and final RA = ordinary RA except lifetime).",
     "level_note": "Trusted: Coq kernel + vm_compute; Go driver, fake Conn with gated WriteTo, synctest; the acceptor's guards are validated by trace acceptance; the group LTS is tied by goextract (six guards + two orderings, gen/ExtGroup.v) and by the C10 fault-injection runs.",
 }
